@@ -45,16 +45,17 @@ CONSTANTS MaxLen, MaxTicks, Designs, Emit, Holds, Late
 
 Steps == {"resp", "badresp", "stop", "close"}
 
-RECURSIVE Playable(_, _, _)
-\* ended: nothing can follow a step that tears the connection down for sure
-Playable(s, i, stops) ==
+RECURSIVE Playable(_, _, _, _)
+\* A reply needs a keep-alive on the wire: before Stop the chain sends one after every reply; after Stop nothing is sent
+\* any more, so a reply can only answer the first keep-alive (a reply to a protocol that is no longer registered).
+\* Nothing follows a step that ends the connection for sure.
+Playable(s, i, stops, reps) ==
     IF i > Len(s) THEN TRUE
     ELSE CASE s[i] = "close"   -> i = Len(s)
-           [] s[i] = "badresp" -> i = Len(s) \/ (i + 1 = Len(s) /\ s[i + 1] = "close")
-           [] s[i] = "stop"    -> stops = 0 /\ Playable(s, i + 1, 1)
-           [] OTHER            -> stops = 0 /\ Playable(s, i + 1, stops)   \* a reply after Stop has no protocol to go to: see "stop.resp" below
-Scripts == {s \in UNION {[1..n -> Steps] : n \in 0..MaxLen} : Playable(s, 1, 0)}
-           \cup (IF MaxLen >= 2 THEN {<<"stop", "resp">>} ELSE {})      \* the reply to an unregistered protocol
+           [] s[i] = "badresp" -> (stops = 0 \/ reps = 0) /\ (i = Len(s) \/ (i + 1 = Len(s) /\ s[i + 1] = "close"))
+           [] s[i] = "stop"    -> stops = 0 /\ Playable(s, i + 1, 1, reps)
+           [] OTHER            -> (stops = 0 \/ reps = 0) /\ Playable(s, i + 1, stops, reps + 1)
+Scripts == {s \in UNION {[1..n -> Steps] : n \in 0..MaxLen} : Playable(s, 1, 0, 0)}
 Replies(s) == Cardinality({i \in 1..Len(s) : s[i] \in {"resp", "badresp"}})
 \* while the first timer-fired tick is held no second keep-alive reaches the wire: at most one reply can be played
 CaseSpace == {x \in {[s |-> s, hold |-> h, late |-> FALSE, design |-> d] : s \in Scripts, h \in Holds, d \in Designs} :
@@ -75,7 +76,10 @@ connV == <<perr, merr, fP, fM, sh, closeSig, connClosed, errClosed>>
 vars == <<c, tm, tk, nt, first, q, out, ag, seen, pi, wire, eof, inbox, reg, stopped, mux, g, done, connV, uc, drain, stopret>>
 
 S == c.s
-Repaired == c.design = "repaired"
+\* design "extracted": startTimer refuses to arm after DoneChan iff the source of the tree under test does so
+\* (c15_table.json keepalive.arm_checks_done, read off protocol/keepalive/client.go by `c15 extract`)
+Table == JsonDeserialize("c15_table.json")
+Repaired == c.design = "repaired" \/ (c.design = "extracted" /\ Table.keepalive.arm_checks_done)    \* ("unguarded": never)
 GNames == {"recv", "send", "closer", "cleanup"}
 Down == stopped \/ done \/ mux = "down" \/ ~g["recv"] \/ ~g["send"]
 ReadAlive == ~(stopped \/ mux = "down" \/ ~g["send"]) /\ ~c.late
@@ -269,7 +273,7 @@ ASSUME Emit => ndJsonSerialize("timer_cases.ndjson", SetToSeq({CaseRow(x) : x \i
 
 Write(row) == CSVWrite("%1$s", <<ToJson(row)>>, "timer_outcomes.ndjson")
 EmitOutcome ==
-    (Emit /\ Terminal /\ ~Repaired) =>
+    (Emit /\ Terminal /\ c.design = "extracted") =>
         Write([script |-> S, hold |-> c.hold, late |-> c.late,
                leak |-> (tm = "armed"), closeret |-> uc = "ret", errclosed |-> errClosed,
                alive |-> SetToSeq(Alive), stopret |-> stopret, played |-> pi - 1, ticks |-> nt])
